@@ -360,7 +360,7 @@ int main(int argc, char** argv)
 		int nrej = quick ? 60 : 400;
 		for(int i = 0; i < nrej; i++)
 		{
-			int kind = (int)h.range(0, 3);
+			int kind = (int)h.range(0, 5);
 			double lo = h.uni(-10, 10), hi = lo + h.logu(1e-3, 1e3), c = h.logu(1e-3, 1e3) * (h.coin() ? 1 : -1);
 			std::function<double(double)> f;
 			std::string pat;
@@ -379,11 +379,21 @@ int main(int argc, char** argv)
 				f	= [hi](double x) { return x == hi ? NAN : -1.0; };
 				pat = ".nan";
 			}
-			else
+			else if(kind == 3)
 			{
 				double m = 0.5 * (lo + hi);
 				f		 = [m, c](double x) { return c * ((x - m) * (x - m) + 1e-3); };	  // dips towards zero inside, never crosses
 				pat		 = c > 0 ? "++" : "--";
+			}
+			else if(kind == 4)
+			{	// one end outside the domain of the function (NaN), the other end an exact zero: NaN ends stop the program
+				f	= [lo, hi, c](double x) { return x == lo ? NAN : (x == hi ? 0.0 : c); };
+				pat = "nan.0";
+			}
+			else
+			{
+				f	= [lo, hi, c](double x) { return x == hi ? NAN : (x == lo ? 0.0 : c); };
+				pat = "0.nan";
 			}
 			bool sw = h.coin();
 			ChildResult r = run_child([&]() { double v = libphysica::Find_Root(f, sw ? hi : lo, sw ? lo : hi, 1e-6); return std::to_string(v); }, 20);
